@@ -180,3 +180,41 @@ func deepNestJobs(entry string, thorough bool, cfgs []string, extra ...interface
 	}
 	return jobs, fmt.Sprintf("deep nesting: each opener of %q repeated n times, n in %v (list markers at most 128), in front of 'a](b)' with one fully symbolic byte, for alternate n followed by the same number of matching closers; configurations %v in rotation", units, ns, cfgs)
 }
+
+// extSeeds: small documents that put the extensions' constructs into less common arrangements (footnotes
+// defined and referenced in different orders, several escaped pipes inside one code span of a table cell,
+// nested definition lists, task items in quotes, …); one fully symbolic byte slid over them.
+var extSeeds = []string{
+	"[^b][^a]\n\n[^a]: x\n[^b]: y",
+	"[^c] [^a] [^b]\n\n[^a]: x\n[^b]: y\n[^c]: z\n",
+	"`a\\|\\|`|\n-|",
+	"| `a\\|b\\|c` | d |\n|---|:-:|\n| `\\|` | e\\|f |\n",
+	"a\n: b\n: c\n\n  d\ne\n: f\n",
+	"> - [x] a\n>   - [ ] b\n",
+	"~~a *b~~ c* ~d~\n",
+	"| a |\n|---|\n| b | c |\n| d\n",
+	"x www.a.b/c(d) http://e.f, g@h.ij.\n",
+	"'a' \"b\" -- --- ... << >> '90s\n",
+	"# a {#i .c k=v}\n\nb {.d}\n===\n",
+	"x[^1]\n\n[^1]: a\n\n    b\n\n    > c[^1]\n",
+}
+
+func extSeedJobs(entry string, thorough, light bool, cfgs []string, extra ...interface{}) ([]interp.Job, string) {
+	var jobs []interp.Job
+	step := 2
+	if thorough {
+		step = 1
+	}
+	if light {
+		step = 4
+	}
+	k := 0
+	for si, sd := range extSeeds {
+		for q := si % step; q <= len(sd); q += step {
+			c := cfgs[k%len(cfgs)]
+			k++
+			jobs = append(jobs, job(entry, append([]interface{}{"cfg", c, "seed", sd, "pos", q, "window", 1}, extra...)...))
+		}
+	}
+	return jobs, fmt.Sprintf("%d extension documents %q with one fully symbolic byte at every %d. offset (thorough: every offset), configurations %v in rotation", len(extSeeds), extSeeds, step, cfgs)
+}
